@@ -295,7 +295,7 @@ def evaluate(ctx, cases, cfgs):
 
 
 def run(ctx):
-    corr = evaluate(ctx, gen(ctx), ["dbg", "isa"] if ctx.quick else ["dbg", "isa", "rel"])
+    corr = evaluate(ctx, gen(ctx), ["dbg", "isa", "rel"])
     from harness import narrowlib
     narrowlib.part(ctx, corr, "clamp", "clamp_value")      # 8- and 16-bit coordinate types, every value of the type
     from harness import ldlib
